@@ -58,8 +58,14 @@ def frame_cases(run, n):
             problems.append("lookup labels are not 0..n-1: %r" % sorted(by_label)[:12])
         if len(set(uniq)) != len(uniq):
             problems.append("duplicate NodeId in lookup")
+        def at(i_):
+            """the lookup entry of an id cell; a cell that is not an id at all is reported, not crashed on"""
+            try:
+                return uniq[int(i_)]
+            except (TypeError, ValueError, IndexError):
+                return "<cell is not an id: %r>" % (i_,)
         for j in range(len(ids)):
-            if uniq[int(nodes["id"][j])] != orig_n["NodeId"][j]:
+            if at(nodes["id"][j]) != orig_n["NodeId"][j]:
                 problems.append("lookup[id] != NodeId")
             for c in ("ParentNodeId", "DataType", "MethodDeclarationId"):
                 if c in cols:
@@ -67,11 +73,11 @@ def frame_cases(run, n):
                     if was is pd.NA:
                         if not pd.isna(now):
                             problems.append("absent %s became an id" % c)
-                    elif pd.isna(now) or uniq[int(now)] != was:
+                    elif (not isinstance(now, UANodeId) and pd.isna(now)) or at(now) != was:
                         problems.append("%s does not denormalise to the original" % c)
         for j in range(m):
             for c in ("Src", "Trg", "ReferenceType"):
-                if uniq[int(refs[c][j])] != orig_r[c][j]:
+                if at(refs[c][j]) != orig_r[c][j]:
                     problems.append("reference column %s does not denormalise" % c)
         if problems:
             run.violation({"frame": {"nodes": {c: [str(x) for x in v] for c, v in cols.items()},
